@@ -149,7 +149,6 @@ func VerifC13ClientGenesis() {
 		len(gs2.Relayers) == len(gs.Relayers) && gs2.NativeChainName == gs.NativeChainName)
 }
 
-var _ sdk.Context
 
 // VerifC13TwoClients: two clients at once, under arbitrary valid chain names of 3 and 3..4 bytes (so that one name may extend
 // the other, or differ from it in any byte): both are exported, the export validates, and both are there after the import.
@@ -163,7 +162,8 @@ func VerifC13TwoClients() {
 	a := rt.StrN("chainA", 3)
 	b := rt.StrN("chainB", 3+rt.IntRange("chainB.extraBytes", 0, 1))
 	rt.Assume(host.ClientIdentifierValidator(a) == nil && host.ClientIdentifierValidator(b) == nil && a != b)
-	csA, csB := &tsstypes.ClientState{TssAddress: rt.Str("tssA")}, &tsstypes.ClientState{TssAddress: rt.Str("tssB")}
+	csA := &tsstypes.ClientState{TssAddress: sdk.AccAddress(rt.BytesN("tssA", 20)).String()}
+	csB := &tsstypes.ClientState{TssAddress: sdk.AccAddress(rt.BytesN("tssB", 20)).String()}
 	rt.Assume(csA.Validate() == nil && csB.Validate() == nil) // stored by a creation path, which validates
 	k.SetClientState(src, a, csA)
 	k.SetClientState(src, b, csB)
